@@ -26,7 +26,7 @@ REQUIRED_BUCKETS = ['cls:OSError-family', 'cls:StopIteration', 'cls:UnicodeError
                     'cls:user-custom-str', 'cls:user-multiple-inheritance', 'cls:user-shadowed-class-attr', 'cls:user-group-subclass', 'cls:BaseException-passthrough',
                     'cls:user-new-raises-on-reconstruction', 'cls:user-new-is-a-factory', 'cls:user-init-subclass-hook', 'cls:explicit-cause', 'depth:1', 'depth:4', 'site:function', 'site:class-constructor', 'site:reference-evaluation', 'site:scoped', 'site:method', 'site:hostile-signature',
                     'cls:user-new-sets-state', 'cls:message-ends-with-whitespace', 'cls:TypeError-subclass',
-                    'cls:user-callable-attrs', 'cls:user-getattr-served', 'cls:user-nested-values',
+                    'cls:user-callable-attrs', 'cls:user-getattr-served', 'cls:user-getattr-answers-every-name', 'cls:user-nested-values',
                     'site:missing-argument', 'site:diagnostics-branch', 'site:class-new-raises', 'site:subclass-of-configurable', 'site:singleton-constructor',
                     'site:macro-to-raising-reference', 'scope:single-component', 'scope:per-level-differs', 'scope:cleared-inside', 'scope:at-reference-site',
                     'mod:notes', 'mod:implicit-context', 'mod:same-instance-twice']
@@ -233,6 +233,18 @@ class UDynamic(Exception):
     return fields[name]
 
 
+class UCatchAll(Exception):
+  """Payload-backed attributes: __getattr__ answers EVERY name that is not set (None for absent fields), dunder names included."""
+  PROBE = ('status', 'detail', 'anything_else')
+
+  def __init__(self, msg, **fields):
+    super().__init__(msg)
+    self.__dict__.update(fields)
+
+  def __getattr__(self, name):
+    return None
+
+
 class UDynamicDir(UDynamic):
   """... and listed by the class's own __dir__."""
   PROBE = ()
@@ -336,6 +348,7 @@ def builtin_instances():
       ('cls:user-callable-attrs', lambda: UCallback('cb')),
       ('cls:user-getattr-served', lambda: UDynamic('dyn', status=503, retry_after=2.5, headers={'x': [1, 2]})),
       ('cls:user-getattr-served', lambda: UDynamicDir('dyn-dir', status=404, reason=('gone', 1))),
+      ('cls:user-getattr-answers-every-name', lambda: UCatchAll('catch-all', status=500)),
       ('cls:user-nested-values', lambda: UNested('nested')),
   ]
   return out
@@ -877,6 +890,8 @@ def run_case(ctx, case):
   bucket, factory = _S['instances'][case['which']]
   orig = factory()
   for k in range(case.get('notes') or 0):
+    if isinstance(orig, UCatchAll):
+      break        # (Python itself refuses notes on it: its __notes__ reads as None)
     orig.add_note(NOTES[k])
   snap = snapshot(orig)          # before anybody raises it
   ctx.bucket(bucket)
